@@ -333,7 +333,25 @@ func c29write(t *testing.T, p, s string) string {
 
 func c29json(v interface{}) string { b, _ := json.Marshal(v); return string(b) }
 
-func c29setup(t *testing.T, tables []*c29table) *c29env {
+// c29profile is one server configuration: which modules are loaded and what the HandleAccept
+// chain looks like in front of mod_trust_clientip.
+type c29profile struct {
+	name        string
+	trustLoaded bool   // mod_trust_clientip is in the module list
+	pre         string // accept filter registered before it: "" none, "goon" passes on, "stop" ends the chain without closing
+}
+
+// trustRuns: the trust decision is made for every connection of this server.
+func (pf c29profile) trustRuns() bool { return pf.trustLoaded && pf.pre != "stop" }
+
+var c29profiles = []c29profile{
+	{name: "trust-first", trustLoaded: true},
+	{name: "filter-before-trust", trustLoaded: true, pre: "goon"},
+	{name: "chain-stopped-before-trust", trustLoaded: true, pre: "stop"},
+	{name: "trust-module-not-loaded"},
+}
+
+func c29setup(t *testing.T, tables []*c29table, pf c29profile) *c29env {
 	e := &c29env{local: &net.TCPAddr{IP: c29v4("192.0.2.1"), Port: 8080}}
 	root, err := ioutil.TempDir("", "c29conf")
 	if err != nil {
@@ -386,9 +404,24 @@ func c29setup(t *testing.T, tables []*c29table) *c29env {
 
 	// modules on the server's own callback table, in bfe's module order, then the observers
 	e.whs = web_monitor.NewWebHandlers()
-	mt := mod_trust_clientip.NewModuleTrustClientIP()
-	if err := mt.Init(e.srv.CallBacks, e.whs, root); err != nil {
-		t.Fatalf("mod_trust_clientip.Init: %v", err)
+	switch pf.pre {
+	case "goon":
+		// some other module's accept filter in front of the trust module
+		if err := e.srv.CallBacks.AddFilter(bfe_module.HandleAccept, func(*bfe_basic.Session) int { return bfe_module.BfeHandlerGoOn }); err != nil {
+			t.Fatalf("AddFilter: %v", err)
+		}
+	case "stop":
+		// an accept filter answering something else than GoOn/Close: HandlerList.FilterAccept
+		// stops the chain, conn.serve goes on serving the connection
+		if err := e.srv.CallBacks.AddFilter(bfe_module.HandleAccept, func(*bfe_basic.Session) int { return bfe_module.BfeHandlerFinish }); err != nil {
+			t.Fatalf("AddFilter: %v", err)
+		}
+	}
+	if pf.trustLoaded {
+		mt := mod_trust_clientip.NewModuleTrustClientIP()
+		if err := mt.Init(e.srv.CallBacks, e.whs, root); err != nil {
+			t.Fatalf("mod_trust_clientip.Init: %v", err)
+		}
 	}
 	mh := mod_header.NewModuleHeader()
 	if err := mh.Init(e.srv.CallBacks, e.whs, root); err != nil {
@@ -399,6 +432,9 @@ func c29setup(t *testing.T, tables []*c29table) *c29env {
 	}
 	if err := e.srv.CallBacks.AddFilter(bfe_module.HandleForward, e.observeForward); err != nil {
 		t.Fatalf("AddFilter: %v", err)
+	}
+	if !pf.trustLoaded {
+		return e
 	}
 	h, err := e.whs.GetHandler(web_monitor.WebHandleReload, "mod_trust_clientip")
 	if err != nil {
@@ -413,6 +449,9 @@ func c29setup(t *testing.T, tables []*c29table) *c29env {
 }
 
 func (e *c29env) load(t *testing.T, tb *c29table) {
+	if e.reload == nil {
+		return // no trust module, no table
+	}
 	p := filepath.Join(e.root, "mod_trust_clientip/table_"+tb.name+".data")
 	if err := e.reload(url.Values{"path": {p}}); err != nil {
 		t.Fatalf("reload table %s: %v", tb.name, err)
@@ -792,10 +831,9 @@ func TestVerifC29(t *testing.T) {
 	defer r.Finish()
 	th := r.Thorough()
 
-	tables, peers := c29tables(th), c29peers(th)
-	xris, xrps, xffs, xfps, extras := c29xri(th), c29xrp(th), c29xff(th), c29xfp(th), c29extra(th)
-	e := c29setup(t, tables)
-	defer os.RemoveAll(e.root)
+	allTables, peers := c29tables(th), c29peers(th)
+	xris, xrps, xffs, xfps, allExtras := c29xri(th), c29xrp(th), c29xff(th), c29xfp(th), c29extra(th)
+	extras := allExtras
 
 	condTrusted := c29mustCond(t, "req_cip_trusted()")
 	var condClaimed []condition.Condition
@@ -817,96 +855,136 @@ func TestVerifC29(t *testing.T) {
 	}
 
 	headerCombos := len(xris) * len(xrps) * len(xffs) * len(xfps) * len(extras)
-	r.Set("bounds", fmt.Sprintf("tables=%d peers=%d x-real-ip=%d x-real-port=%d x-forwarded-for=%d x-forwarded-port=%d extra=%d => %d single-request header combinations + %d two-request connections per (table,peer)",
-		len(tables), len(peers), len(xris), len(xrps), len(xffs), len(xfps), len(extras), headerCombos, len(pairSet)*len(pairSet)))
+	tables := allTables
+	r.Set("bounds", fmt.Sprintf("server configurations=%d (the first with all tables, all extras, keep-alive pairs and reload histories; the others with tables empty/range/v6 resp. no table, extra=none); tables=%d peers=%d x-real-ip=%d x-real-port=%d x-forwarded-for=%d x-forwarded-port=%d extra=%d => %d single-request header combinations + %d two-request connections per (table,peer)",
+		len(c29profiles), len(tables), len(peers), len(xris), len(xrps), len(xffs), len(xfps), len(extras), headerCombos, len(pairSet)*len(pairSet)))
 
 	reported := map[string]bool{}
 	panics := 0
 	backendsSeen := map[string]bool{}
 	idx := 0
-	for _, tb := range tables {
-		e.load(t, tb)
-		for _, p := range peers {
-			idx++
-			if !r.Mine(idx) {
-				continue
-			}
-			if r.Expired("table/peer loop") {
-				return
-			}
-			ipS := p.ip.String()
-			cd := &c29conds{peer: c29mustCond(t, fmt.Sprintf("req_cip_range(%q, %q)", ipS, ipS)), claimed: condClaimed, trusted: condTrusted}
-			j := &c29judge{reported: reported, r: r, tb: tb, p: p, modelTrusted: tb.contains(p.ip), peerClaimed: claimedSet.contains(p.ip)}
-
-			// baseline for the balancing oracle: same peer, no address header (not a case)
-			if !j.modelTrusted {
-				obs, err := c29run(e, p, [][]byte{none.raw()}, cd)
-				if err != nil {
-					t.Fatalf("C29 harness: baseline %s/%s: %v", tb.name, p.name, err)
+	var e0 *c29env
+	for pfi, pf := range c29profiles {
+		// Server configurations: the first one (trust module first in the accept chain) gets the
+		// whole space; the others the full address-header product without the extra fields, over
+		// three tables (or none when the module is not loaded).
+		tables, extras = allTables, allExtras
+		if pfi > 0 {
+			extras = allExtras[:1]
+			tables = nil
+			for _, tb := range allTables {
+				if pf.trustLoaded && (tb.name == "empty" || tb.name == "range" || tb.name == "v6") {
+					tables = append(tables, tb)
 				}
-				j.baseline = obs[0].backend
-				backendsSeen[j.baseline] = true
 			}
-
-			exec := func(id string, hs []c29hdr) {
-				var raws [][]byte
-				for _, h := range hs {
-					raws = append(raws, h.raw())
+			if !pf.trustLoaded {
+				tables = []*c29table{{name: "no-table"}}
+			}
+		}
+		e := c29setup(t, allTables, pf)
+		defer os.RemoveAll(e.root)
+		if pfi == 0 {
+			e0 = e
+		}
+		pfKey, pfPos := "", ""
+		if pfi > 0 {
+			pfKey, pfPos = pf.name+"|", ":"+pf.name
+		}
+		for _, tb := range tables {
+			e.load(t, tb)
+			for _, p := range peers {
+				idx++
+				if !r.Mine(idx) {
+					continue
 				}
-				var obs []*c29obs
-				var rerr error
-				if pn, val := vk.Guard(func() { obs, rerr = c29run(e, p, raws, cd) }); pn {
-					panics++
-					r.Outcome("panic:" + vk.PanicSite(val))
-					t.Logf("C29: panic in case %s: %s", id, val)
+				if r.Expired("table/peer loop") {
 					return
 				}
-				if rerr != nil {
-					t.Fatalf("C29 harness: case %s: %v", id, rerr)
-				}
-				nontrivial := false
-				for i, h := range hs {
-					pos := ""
-					if len(hs) > 1 {
-						pos = fmt.Sprintf(":req%d-of-%d", i+1, len(hs))
-					}
-					j.judge(id, pos, h, obs[i], raws[i])
-					backendsSeen[obs[i].backend] = true
-					if !h.trivial() {
-						nontrivial = true
-					}
-				}
-				if nontrivial {
-					r.Nontrivial(id)
-				}
-				if len(hs) == 1 && idx%5 == 0 && hs[0].xri.name == "v4" && hs[0].xrp.name == "1234" && hs[0].xff.name == "two" && hs[0].xfp.name == "absent" && hs[0].ex.name == "none" {
-					r.Sample(map[string]interface{}{"case": id, "model_trusted": j.modelTrusted, "client_addr": fmt.Sprintf("%v:%d", obs[0].early.clientIP, obs[0].early.clientPort), "backend": obs[0].backend, "upstream": obs[0].upRaw})
-				}
-			}
+				ipS := p.ip.String()
+				cd := &c29conds{peer: c29mustCond(t, fmt.Sprintf("req_cip_range(%q, %q)", ipS, ipS)), claimed: condClaimed, trusted: condTrusted}
+				// a peer is trusted only if the trust decision was made and the table contains it
+				j := &c29judge{reported: reported, r: r, tb: tb, p: p, modelTrusted: pf.trustRuns() && tb.contains(p.ip), peerClaimed: claimedSet.contains(p.ip)}
+				// the chain stopped before the trust module and the peer IS in the table: the statement
+				// does not say which way this goes - run, but do not judge
+				unjudged := !pf.trustRuns() && tb.contains(p.ip)
 
-			for _, xri := range xris {
-				for _, xrp := range xrps {
-					for _, xff := range xffs {
-						for _, xfp := range xfps {
-							for _, ex := range extras {
-								h := c29hdr{xri, xrp, xff, xfp, ex}
-								id := vk.Key(tb.name, p.name, h.key())
-								if !r.Case(id) {
-									continue
+				// baseline for the balancing oracle: same peer, no address header (not a case)
+				if !j.modelTrusted {
+					obs, err := c29run(e, p, [][]byte{none.raw()}, cd)
+					if err != nil {
+						t.Fatalf("C29 harness: baseline %s/%s: %v", tb.name, p.name, err)
+					}
+					j.baseline = obs[0].backend
+					backendsSeen[j.baseline] = true
+				}
+
+				exec := func(id string, hs []c29hdr) {
+					var raws [][]byte
+					for _, h := range hs {
+						raws = append(raws, h.raw())
+					}
+					var obs []*c29obs
+					var rerr error
+					if pn, val := vk.Guard(func() { obs, rerr = c29run(e, p, raws, cd) }); pn {
+						panics++
+						r.Outcome("panic:" + vk.PanicSite(val))
+						t.Logf("C29: panic in case %s: %s", id, val)
+						return
+					}
+					if rerr != nil {
+						t.Fatalf("C29 harness: case %s: %v", id, rerr)
+					}
+					nontrivial := false
+					for i, h := range hs {
+						pos := pfPos
+						if len(hs) > 1 {
+							pos += fmt.Sprintf(":req%d-of-%d", i+1, len(hs))
+						}
+						if unjudged {
+							r.Outcome("unjudged:peer-in-table-but-trust-filter-not-reached")
+						} else {
+							j.judge(id, pos, h, obs[i], raws[i])
+						}
+						backendsSeen[obs[i].backend] = true
+						if !h.trivial() {
+							nontrivial = true
+						}
+					}
+					if nontrivial {
+						r.Nontrivial(id)
+					}
+					if len(hs) == 1 && idx%5 == 0 && hs[0].xri.name == "v4" && hs[0].xrp.name == "1234" && hs[0].xff.name == "two" && hs[0].xfp.name == "absent" && hs[0].ex.name == "none" {
+						r.Sample(map[string]interface{}{"case": id, "model_trusted": j.modelTrusted, "client_addr": fmt.Sprintf("%v:%d", obs[0].early.clientIP, obs[0].early.clientPort), "backend": obs[0].backend, "upstream": obs[0].upRaw})
+					}
+				}
+
+				for _, xri := range xris {
+					for _, xrp := range xrps {
+						for _, xff := range xffs {
+							for _, xfp := range xfps {
+								for _, ex := range extras {
+									h := c29hdr{xri, xrp, xff, xfp, ex}
+									id := pfKey + vk.Key(tb.name, p.name, h.key())
+									if !r.Case(id) {
+										continue
+									}
+									exec(id, []c29hdr{h})
 								}
-								exec(id, []c29hdr{h})
 							}
 						}
 					}
 				}
-			}
-			for _, h1 := range pairSet {
-				for _, h2 := range pairSet {
-					id := vk.Key(tb.name, p.name, "keepalive", h1.key(), h2.key())
-					if !r.Case(id) {
-						continue
+				for _, h1 := range pairSet {
+					for _, h2 := range pairSet {
+						if pfi > 0 && (h1.ex != allExtras[0] || h2.ex != allExtras[0]) {
+							continue
+						}
+						id := pfKey + vk.Key(tb.name, p.name, "keepalive", h1.key(), h2.key())
+						if !r.Case(id) {
+							continue
+						}
+						exec(id, []c29hdr{h1, h2})
 					}
-					exec(id, []c29hdr{h1, h2})
 				}
 			}
 		}
@@ -915,7 +993,7 @@ func TestVerifC29(t *testing.T) {
 	// ---- reload histories: 2-3 table loads through the module's reload handler, the data
 	// file's Version {bumped, unchanged, empty} x content {neither, A, B, both, unloadable file};
 	// connections from A and B judged against the table of the LAST SUCCESSFUL reload.
-	nHist := c29reloadHistories(t, r, e, &idx, reported, condClaimed, condTrusted, claimedSet, &panics)
+	nHist := c29reloadHistories(t, r, e0, &idx, reported, condClaimed, condTrusted, claimedSet, &panics)
 	r.Set("reload_histories", nHist)
 	r.Set("panics", panics)
 	r.Set("distinct_backends_picked", len(backendsSeen))
